@@ -74,7 +74,12 @@ impl Corpus {
         if with_g7 {
             g.extend(load_list(&root.join("G7_filter_passing.txt"), "I")?);
         }
-        let finite_small = load_list(&root.join("finite_small.txt"), "S")?;
+        let mut finite_small = load_list(&root.join("finite_small.txt"), "S")?;
+        if with_g7 {
+            // thorough tier: also the large universal covers (601..9216 chambers)
+            let large = load_list(&root.join("finite_large.txt"), "T")?;
+            finite_small.extend(large);
+        }
         let mut manifold_covers = vec![];
         let path = root.join("finite_manifold_covers.txt");
         let content = std::fs::read_to_string(&path).map_err(|e| format!("{}: {}", path.display(), e))?;
